@@ -38,6 +38,20 @@ def rand_system(rng, default_prob=0.2):
 
 
 class FGen(seqgen.Gen):
+    def amp(self):
+        """as seqgen.Gen.amp, plus near-twins of an earlier amplitude around the 6-/7-digit rounding threshold
+        (duplicate removal must merge exactly what the printer cannot distinguish)"""
+        r = self.rng
+        prev = getattr(self, '_amps', [])
+        if prev and r.random() < 0.2:
+            a = r.choice(prev) * (1 + r.choice([1e-7, 3e-7, -2e-7, 4e-6, 0.0]))
+        else:
+            a = super().amp()
+        if abs(a) > self.sys.max_grad:
+            a = super().amp()
+        self._amps = (prev + [a])[-6:]
+        return a
+
     def conn_duration(self, pairs):
         """block length (multiple of T0) long enough to ramp every (first, last) pair at <= 45 % of max slew"""
         need = max([abs(l - f) / (0.45 * self.sys.max_slew) for f, l in pairs] + [4 * T0])
